@@ -76,8 +76,14 @@ func refsG(rs []uint32) string {
 	return "[" + strings.Join(it, ";") + "]"
 }
 
-func histCode(id int64, float, valid bool) int64 {
-	c := id * 4
+// histCode: ((key*256 + (schema+100))*2 + redok)*4 + float*2 + valid, key = identity incl. the
+// schema the histogram was sent with, schema = the schema it has where it is observed.
+func histCode(key int64, schema int32, redok, float, valid bool) int64 {
+	c := (key*256 + int64(schema) + 100) * 2
+	if redok {
+		c++
+	}
+	c *= 4
 	if float {
 		c += 2
 	}
@@ -99,7 +105,7 @@ func (t *strtab) req(r *request) string {
 		}
 		hs := make([]string, len(s.H))
 		for j, h := range s.H {
-			hs[j] = fmt.Sprintf("(%d,%d)", h.T, histCode(h.ID, h.Float, h.Valid))
+			hs[j] = fmt.Sprintf("(%d,%d)", h.T, histCode(h.key(), h.Schema, h.RedOK, h.Float, h.Valid))
 		}
 		es := make([]string, len(s.E))
 		for j, e := range s.E {
@@ -217,6 +223,25 @@ func (g *genCtx) genLabels() ([]lbl, string) {
 	return ls, class
 }
 
+// genHistSchema: the standard schemas, the boundary 8, the reserved ones that the receiver must
+// reduce to 8 (9..52), custom buckets, and rarely a reserved schema below the minimum (invalid).
+func genHistSchema(r *gen.Rand) int32 {
+	switch x := r.Intn(100); {
+	case x < 35:
+		return int32(r.PickI64(-4, 0, 3, 7))
+	case x < 55:
+		return 8
+	case x < 65:
+		return int32(r.PickI64(9, 52))
+	case x < 80:
+		return int32(r.Range(9, 52))
+	case x < 96:
+		return -53
+	default:
+		return -6
+	}
+}
+
 // times returns n timestamps for series number idx according to a mode.
 func (g *genCtx) times(idx, n int, mode int, off int64) []int64 {
 	r := g.r
@@ -308,7 +333,7 @@ func (g *genCtx) genRequest(v2 bool, dist func(string)) *request {
 				hm = g.mode()
 			}
 			for _, t := range g.times(i, nH, hm, 10*int64(nS)) {
-				s.H = append(s.H, hst{T: t, ID: r.Range(0, 3), Float: r.Bool(), Bad: r.Chance(1, 8)})
+				s.H = append(s.H, hst{T: t, ID: r.Range(0, 3), Schema: genHistSchema(r), Float: r.Bool(), Bad: r.Chance(1, 8)})
 			}
 		}
 		if nS == 0 && len(s.H) == 0 {
@@ -516,7 +541,7 @@ func stepShape(req *request, res response, after []storedSeries, exon bool) stri
 		}
 		for _, x := range w.h {
 			for _, y := range st.S {
-				if y.Hist && y.Float == x.Float && y.T == x.T && y.V == x.ID {
+				if y.Hist && y.Float == x.Float && y.T == x.T && y.V == x.key() {
 					ph++
 					break
 				}
@@ -607,7 +632,7 @@ func main() {
 			case 'f':
 				evs[i] = fmt.Sprintf("REF %s %d %d", tab.lbls(e.L), e.T, e.V)
 			case 'h':
-				evs[i] = fmt.Sprintf("REH %s %d %d", tab.lbls(e.L), e.T, histCode(e.HID, e.Float, e.V == 1))
+				evs[i] = fmt.Sprintf("REH %s %d %d", tab.lbls(e.L), e.T, histCode(e.HID, e.Schema, true, e.Float, e.V == 1))
 			default:
 				evs[i] = fmt.Sprintf("REE %s %s %d %d", tab.lbls(e.L), tab.lbls(e.EL), e.T, e.V)
 			}
@@ -664,7 +689,7 @@ func main() {
 				ss := make([]string, len(s.S))
 				for j, x := range s.S {
 					if x.Hist {
-						ss[j] = fmt.Sprintf("(%d,1,%d)", x.T, histCode(x.V, x.Float, true))
+						ss[j] = fmt.Sprintf("(%d,1,%d)", x.T, histCode(x.V, x.Schema, true, x.Float, true))
 					} else {
 						ss[j] = fmt.Sprintf("(%d,0,%d)", x.T, x.V)
 					}
@@ -675,6 +700,25 @@ func main() {
 					es[j] = fmt.Sprintf("(%s,%d,%d)", tab.lbls(e.L), e.T, e.V)
 				}
 				sers[i] = fmt.Sprintf("(%s,[%s],[%s])", tab.lbls(s.L), strings.Join(ss, ";"), strings.Join(es, ";"))
+			}
+			for _, s := range snap {
+				for _, x := range s.S {
+					if !x.Hist {
+						continue
+					}
+					ok := false
+					if x.Float {
+						e := expectedFloat(x.V)
+						ok = e != nil && x.FH != nil && e.Equals(x.FH)
+					} else {
+						e := expectedInt(x.V)
+						ok = e != nil && x.H != nil && e.Equals(x.H)
+					}
+					if !ok {
+						meta.GoViol = append(meta.GoViol, gallina.GoViolation{ID: fmt.Sprint(id), Shape: "stored-histogram-differs-from-oracle",
+							What: fmt.Sprintf("series %s t=%d key=%d: the stored histogram is not the sent one (reduced to schema 8 by histogram.ReduceResolution where the sent schema is 9..52)", s.ls.String(), x.T, x.V)})
+					}
+				}
 			}
 			steps = append(steps, fmt.Sprintf("(%s, mkHObs %d %s [%s])", tab.req(req), res.Status, statsG(res.Stats), strings.Join(sers, "; ")))
 			sh := stepShape(req, res, snap, exon)
@@ -827,6 +871,32 @@ func main() {
 	for _, where := range []string{"series-odd", "exemplar-odd"} {
 		emitRec(boundary(where, nil), nil, true, "v2-ref-"+where)
 		emitHead([]*request{boundary(where, nil)}, true, "v2-ref-"+where)
+	}
+
+	// native histogram schemas on both receive paths: standard, the maximum 8, reserved 9..52 (reduced
+	// to 8 by remoteWriteAppender), custom buckets; mixed with floats and exemplars
+	for _, isV2 := range []bool{false, true} {
+		mk := v1req
+		if isV2 {
+			mk = v2req
+		}
+		for _, fl := range []bool{false, true} {
+			kind := "int"
+			if fl {
+				kind = "float"
+			}
+			all := ser{L: m1, S: []smp{{1000, 1}}, E: []exm{{L: tr(1), T: 1001, V: 1}}}
+			for i, sc := range []int32{-4, 0, 3, 7, 8, 9, 10, 30, 52, -53} {
+				all.H = append(all.H, hst{T: 1010 + 10*int64(i), ID: 1, Schema: sc, Float: fl})
+			}
+			name := "v" + ver(isV2) + "-" + kind + "-histogram-schemas"
+			emitHead([]*request{mk(all)}, true, name)
+			emitRec(mk(all), nil, true, name)
+			for _, sc := range []int32{8, 9, 52, -53} {
+				one := ser{L: m1, S: []smp{{1000, 1}}, H: []hst{{T: 1010, ID: 2, Schema: sc, Float: fl}}}
+				emitHead([]*request{mk(one)}, true, fmt.Sprintf("%s-%d", name, sc))
+			}
+		}
 	}
 
 	// ----- generated -----
